@@ -519,7 +519,31 @@ class StateReader:
         dirs = dict(zip(params, args))
         env = {}
         tabs = {}
-        for st in _body(fn):
+        ienv = {}       # loop variables bound to integer literals
+        lits = {}       # name -> literal list of tuples (ints / rtrees), for table-plus-loop fills
+
+        def index(e):
+            if isinstance(e, ast.Name) and e.id in ienv:
+                return ienv[e.id]
+            return _int(e, where)
+
+        def item(e):
+            """element of a literal tuple: an integer literal stays an int, anything else is a scalar expression"""
+            if isinstance(e, ast.Constant) and isinstance(e.value, int) and not isinstance(e.value, bool):
+                return e.value
+            return expr(e, env, where)
+
+        def literal_rows(v):
+            if isinstance(v, ast.Name) and v.id in lits:
+                return lits[v.id]
+            if isinstance(v, (ast.List, ast.Tuple)) and v.elts and all(isinstance(e, ast.Tuple) for e in v.elts):
+                n = len(v.elts[0].elts)
+                if any(len(e.elts) != n for e in v.elts):
+                    raise TranslateError("%s: ragged literal table line %d" % (where, v.lineno))
+                return [[item(x) for x in e.elts] for e in v.elts]
+            return None
+
+        def do(st, in_loop):
             if isinstance(st, ast.Assign):
                 v = st.value
                 tg = st.targets
@@ -532,15 +556,15 @@ class StateReader:
                         for nm, comp in zip(names, POS9):
                             if nm != "_":
                                 env[nm] = ('v', comp)
-                        continue
+                        return None
                     if _is_self_call(v, "_Get_normalized_components") and len(names) == 3 and len(v.args) == 1 \
                             and isinstance(v.args[0], ast.Name) and v.args[0].id in dirs:
                         d = dirs[v.args[0].id]
                         for nm, ax in zip(names, "xyz"):
                             env[nm] = ('v', d + ax)
-                        continue
+                        return None
                     if _is_self_call(v, "_GetDims") or (isinstance(v, ast.Attribute) and v.attr == "shape"):
-                        continue
+                        return None
                     raise TranslateError("%s: unpack of %s line %d" % (where, ast.unparse(v)[:50], st.lineno))
                 # table creation
                 if len(tg) == 1 and isinstance(tg[0], ast.Name):
@@ -548,12 +572,17 @@ class StateReader:
                     shape = self._zeros_shape(v)
                     if shape is not None:
                         tabs[nm] = self._zeros(shape)
-                        continue
+                        return None
                     if isinstance(v, ast.Call) and ast.unparse(v.func) == "np.array" and len(v.args) == 1 and not v.keywords:
                         tabs[nm] = self._literal(v.args[0], env, where)
-                        continue
+                        return None
+                    rows = literal_rows(v) if isinstance(v, (ast.List, ast.Tuple)) else None
+                    if rows is not None:
+                        lits[nm] = rows
+                        return None
+                    ienv.pop(nm, None)
                     env[nm] = expr(v, env, where)
-                    continue
+                    return None
                 # table stores (possibly chained)
                 if all(isinstance(t, ast.Subscript) for t in tg):
                     val = expr(v, env, where)
@@ -563,7 +592,9 @@ class StateReader:
                         el = t.slice.elts if isinstance(t.slice, ast.Tuple) else [t.slice]
                         if len(el) < 3 or not all(isinstance(e, ast.Slice) and e.lower is None and e.upper is None for e in el[:2]):
                             raise TranslateError("%s: store index line %d" % (where, st.lineno))
-                        idx = [_int(e, where) for e in el[2:]]
+                        idx = [index(e) for e in el[2:]]
+                        if any(not 0 <= k < 6 for k in idx):
+                            raise TranslateError("%s: store index out of range line %d" % (where, st.lineno))
                         tab = tabs[t.value.id]
                         if len(idx) == 1 and not isinstance(tab[0], list):
                             tab[idx[0]] = val
@@ -571,11 +602,40 @@ class StateReader:
                             tab[idx[0]][idx[1]] = val
                         else:
                             raise TranslateError("%s: store rank line %d" % (where, st.lineno))
-                    continue
+                    return None
                 raise TranslateError("%s: assignment line %d" % (where, st.lineno))
-            if isinstance(st, ast.Return):
+            if isinstance(st, ast.For) and not in_loop and not st.orelse:
+                # table-plus-loop fill: `for i, j, value in <literal list of tuples>:` with a body of stores
+                rows = literal_rows(st.iter)
+                tgt = st.target
+                names = [e.id for e in tgt.elts] if isinstance(tgt, ast.Tuple) and all(isinstance(e, ast.Name) for e in tgt.elts) else None
+                if rows is None or names is None or any(len(r) != len(names) for r in rows):
+                    raise TranslateError("%s: for-loop line %d is not a fill from a literal table of tuples" % (where, st.lineno))
+                if any(nm in tabs or nm in dirs for nm in names):
+                    raise TranslateError("%s: loop variable shadows a table line %d" % (where, st.lineno))
+                for r in rows:
+                    for nm, val in zip(names, r):
+                        if isinstance(val, int):
+                            ienv[nm] = val
+                            env[nm] = ('c', Fraction(val))
+                        else:
+                            ienv.pop(nm, None)
+                            env[nm] = val
+                    for b in st.body:
+                        if not isinstance(b, ast.Assign):
+                            raise TranslateError("%s: statement %s inside a fill loop line %d" % (where, type(b).__name__, b.lineno))
+                        do(b, True)
+                for nm in names:
+                    ienv.pop(nm, None)
+                return None
+            if isinstance(st, ast.Return) and not in_loop:
                 return self._ret(st.value, env, tabs, dirs, where, depth)
             raise TranslateError("%s: statement %s line %d" % (where, type(st).__name__, st.lineno))
+
+        for st in _body(fn):
+            r = do(st, False)
+            if r is not None:
+                return r
         raise TranslateError("%s: no return" % where)
 
     def _zeros_shape(self, v):
